@@ -857,13 +857,17 @@ def gen_cli_options(root, report):
     assignment to `program_info[...]` anywhere in the two programs (function, key, right-hand side)"""
     ta, to = _cli_facts(root, 'trainer.py')
     ga, go = _cli_facts(root, 'pcfg_guesser.py')
-    if not ta or not ga or not to or not go:
+    ea, eo = _cli_facts(root, 'edit_rules.py')
+    pa, po = _cli_facts(root, 'prince_ling.py')
+    sa, so = _cli_facts(root, 'password_scorer.py')
+    if not ta or not ga or not to or not go or not ea or not eo or not pa or not po or not sa or not so:
         raise TranslateError('command line glue not found')
-    report['cli_options'] = {'trainer_assign': len(ta), 'guesser_assign': len(ga), 'trainer_options': len(to), 'guesser_options': len(go)}
+    report['cli_options'] = {'trainer_assign': len(ta), 'guesser_assign': len(ga), 'trainer_options': len(to), 'guesser_options': len(go),
+                             'edit_assign': len(ea), 'prince_assign': len(pa), 'scorer_assign': len(sa)}
 
     def l3(items):
         return '[' + ',\n   '.join('(' + ', '.join(lean_str(x) for x in it) + ')' for it in items) + ']'
-    return f'''/-! GENERATED by harness/translate.py (tables.py) from trainer.py and pcfg_guesser.py -- do not edit.
+    return f'''/-! GENERATED by harness/translate.py (tables.py) from trainer.py, pcfg_guesser.py, edit_rules.py, prince_ling.py and password_scorer.py -- do not edit.
 `*Assign`: every assignment to `program_info[...]` (function, key, right-hand side; `<dynamic>` = computed key or a dict method).
 `*Options`: every `add_argument` (long flag, default, type, action, const, dest). -/
 namespace Pcfg.Generated.CliOptions
@@ -879,6 +883,27 @@ def guesserAssign : List (String × String × String) :=
 
 def guesserOptions : List (String × String × String × String × String × String) :=
   {l3(go)}
+
+/-- `edit_rules.py` -/
+def editAssign : List (String × String × String) :=
+  {l3(ea)}
+
+def editOptions : List (String × String × String × String × String × String) :=
+  {l3(eo)}
+
+/-- `prince_ling.py` -/
+def princeAssign : List (String × String × String) :=
+  {l3(pa)}
+
+def princeOptions : List (String × String × String × String × String × String) :=
+  {l3(po)}
+
+/-- `password_scorer.py` -/
+def scorerAssign : List (String × String × String) :=
+  {l3(sa)}
+
+def scorerOptions : List (String × String × String × String × String × String) :=
+  {l3(so)}
 
 end Pcfg.Generated.CliOptions
 '''
